@@ -70,99 +70,133 @@ def _is_accessor_call(body, t, which):
 
 
 def slot(ctx, report, rule, facts, config):
-    """C01.SLOT / C04.INSERT: on every normal path of StagesBuilder::insert the
-    boxed system, its id, its access sets and its running time are written
-    exactly once each, all at the same (stage, group) slot, and that slot is
-    the one the insertion target denotes."""
+    """C01.SLOT / C04.INSERT: on every normal path of StagesBuilder::insert the boxed system, its id, its access
+    sets and its running time are written exactly once each, all at the same (stage, group) slot, and that slot is
+    the one the insertion target denotes.  Stated over the structured evaluation: helpers are looked into, the
+    order of independent statements and the spelling of the match do not matter."""
+    from . import semq as Q
+    from . import placement as PL
     body = facts.one(A.SB + "::insert")
     report.touched(body, config)
-    paths = [p for p in enumerate_paths(body, facts) if p.end == "return"]
-    report.floor(rule, "normal paths of insert", len(paths), 3, config=config)
+    ev, ends = Q.sem(ctx, facts, A.SB + "::insert", opaque=PL.OPAQUE_INS)
+    it_body = facts.one(A.SB + "::insertion_target")
+    rets = [e for e in ends if e.kind == "return"]
     seen_variants = set()
-    for p in paths:
-        variant = None
-        it_call = None
-        for (ct, cv, cn, cb) in p.conds:
-            if ct[0] == "discr" and isinstance(ct[1], tuple) and ct[1][0] == "call" and callee_at(body, ct[1][1]).name == "insertion_target":
-                variant = cn
-                it_call = ct[1]
-        if variant is None:
-            # drop-flag or other condition: every path must be decided by the insertion target
+    n_paths = 0
+
+    def is_acc(t, which):
+        t = Q.strip(ev, t, extra=("into_iter",))
+        c = Q.callee_of(ev, t)
+        return c is not None and c.trait == A.T_ACCESSOR and c.name == which
+
+    for e in rets:
+        events = e.path.events
+        its = [x for x in events if x[0] == "call" and x[2].key == it_body.key]
+        if len(its) != 1:
+            report.ob(rule, "path-not-decided-by-target", False, "a normal path of insert asks insertion_target %d times" % len(its), site=body.loc(), config=config)
+            continue
+        it_call = its[0][4]
+        v = e.path.variant(it_call)
+        if v is None or "|" in v:
             report.ob(rule, "path-not-decided-by-target", False, "a normal path of insert does not branch on the insertion target", site=body.loc(), config=config)
             continue
+        n_paths += 1
+        variant = v
         seen_variants.add(variant)
         inst = "insert/%s" % variant
         writes = {}
         order = []
         problems = []
-        for e in p.effects:
-            if e[0] == "call":
-                _, bb, c, args, _dest = e
-                order.append((bb, c.name, args))
+        if any(x[0] == "loop" for x in events):
+            problems.append("insert loops")
+        for pos, x in enumerate(events):
+            if x[0] == "call":
+                _, site, c, args, val = x
+                order.append((pos, c.name, args))
                 if c.local or not args:
                     continue
-                fields, idx, base = table_access(body, args[0])
-                cf = crate_fields(fields)
+                fields, idx, base = Q.table_access(ev, args[0])
+                cf = Q.crate_fields(fields)
                 if not cf or cf[0][0] != A.SB or base != ("param", 1):
                     continue
-                if c.name in ("index", "index_mut", "len", "iter", "is_empty", "deref", "deref_mut", "get", "get_mut"):
+                if c.name in ("index", "index_mut", "len", "iter", "is_empty", "deref", "deref_mut", "get", "get_mut", "as_ref", "as_mut", "borrow"):
                     continue
                 tab = cf[0][1]
                 if tab not in TABLES:
                     continue
-                writes.setdefault(tab, []).append((bb, c.name, idx, args[1:] if len(args) > 1 else ()))
-            elif e[0] == "store":
-                _, bb, place, val = e
-                fields, idx, base = table_access(body, place)
-                cf = crate_fields(fields)
+                writes.setdefault(tab, []).append((pos, c.name, idx, args[1:] if len(args) > 1 else (), site))
+            elif x[0] == "store":
+                _, site, place, val = x
+                if place[0] == "cell":
+                    continue
+                fields, idx, base = Q.table_access(ev, place)
+                cf = Q.crate_fields(fields)
                 if cf and cf[0][0] == A.SB and base == ("param", 1) and cf[0][1] in TABLES:
-                    writes.setdefault(cf[0][1], []).append((bb, "store", idx, (val,)))
+                    writes.setdefault(cf[0][1], []).append((pos, "store", idx, (val,), site))
         slots = {}
         for tab in TABLES:
             w = writes.get(tab, [])
             if len(w) != 1:
                 problems.append("table `%s` is written %d time(s) on this path (expected exactly 1)" % (tab, len(w)))
                 continue
-            bb, op, idx, vals = w[0]
+            pos, op, idx, vals, site = w[0]
             if len(idx) != 2:
-                problems.append("write to `%s` at %s uses %d index level(s) (expected [stage][group])" % (tab, body.loc(bb), len(idx)))
+                problems.append("write to `%s` at %s uses %d index level(s) (expected [stage][group])" % (tab, ev.loc(site), len(idx)))
                 continue
-            slots[tab] = (idx[0], idx[1], op, vals, bb)
+            slots[tab] = (Q.strip(ev, idx[0]), Q.strip(ev, idx[1]), op, vals, site, pos)
         if len(slots) == len(TABLES):
             s0, g0 = slots["stages"][0], slots["stages"][1]
             for tab in TABLES:
                 s_, g_ = slots[tab][0], slots[tab][1]
                 if s_ != s0 or g_ != g0:
-                    problems.append("`%s` is written at a different (stage, group) than the boxed system (%s)" % (tab, body.loc(slots[tab][4])))
-            # value roles
+                    problems.append("`%s` is written at a different (stage, group) than the boxed system (%s)" % (tab, ev.loc(slots[tab][4])))
             op, vals = slots["stages"][2], slots["stages"][3]
             boxed = vals[0] if vals else None
             while isinstance(boxed, tuple) and boxed and boxed[0] == "cast":
                 boxed = boxed[2]
-            if not (op == "push" and isinstance(boxed, tuple) and boxed[0] == "call" and callee_at(body, boxed[1]).name == "new"
-                    and "Box" in callee_at(body, boxed[1]).path and boxed[2] == (("param", 4),)):
+            bc = Q.callee_of(ev, boxed)
+            if not (op == "push" and bc is not None and bc.name == "new" and "Box" in bc.path and boxed[2] == (("param", 4),)):
                 problems.append("the value pushed into the executed layout is not Box::new(system) appended with `push`")
             op, vals = slots["ids"][2], slots["ids"][3]
             if not (op == "push" and vals and vals[0] == ("param", 3)):
                 problems.append("the id table does not receive the `id` parameter by `push`")
             op, vals = slots["reads"][2], slots["reads"][3]
-            if not (op == "extend" and vals and _is_accessor_call(body, vals[0], "reads")):
+            if not (op == "extend" and vals and is_acc(vals[0], "reads")):
                 problems.append("accumulated reads are not extended with the system's declared reads")
             op, vals = slots["writes"][2], slots["writes"][3]
-            if not (op == "extend" and vals and _is_accessor_call(body, vals[0], "writes")):
+            if not (op == "extend" and vals and is_acc(vals[0], "writes")):
                 problems.append("accumulated writes are not extended with the system's declared writes")
             # the same vectors were judged by insertion_target
-            if it_call is not None:
-                a = it_call[2]
-                if not (len(a) == 5 and a[0] == ("param", 1) and _is_accessor_call(body, a[1], "reads") and _is_accessor_call(body, a[2], "writes")
-                        and a[3] == ("param", 2)):
-                    problems.append("insertion_target is not called with (self, declared reads, declared writes, dep)")
-                elif a[1] != slots["reads"][3][0] or a[2] != slots["writes"][3][0]:
+            a = it_call[2]
+            roles = []
+            for x in a:
+                if Q.strip(ev, x) == ("param", 1):
+                    roles.append("SELF")
+                elif is_acc(x, "reads"):
+                    roles.append("R")
+                elif is_acc(x, "writes"):
+                    roles.append("W")
+                elif Q.strip(ev, x) == ("param", 2):
+                    roles.append("DEP")
+                else:
+                    roles.append("-")
+            if not (roles.count("SELF") == 1 and roles.count("R") == 1 and roles.count("W") == 1 and roles.count("DEP") == 1):
+                problems.append("insertion_target is not called with (self, declared reads, declared writes, dep)")
+            else:
+                jr = Q.strip(ev, a[roles.index("R")], extra=("into_iter",))
+                jw = Q.strip(ev, a[roles.index("W")], extra=("into_iter",))
+                if jr != Q.strip(ev, slots["reads"][3][0], extra=("into_iter",)) or jw != Q.strip(ev, slots["writes"][3][0], extra=("into_iter",)):
                     problems.append("the access sets judged by insertion_target are not the ones accumulated")
             # slot vs. target
-            names = [(bb, n) for bb, n, _ in order]
-            n_add_stage = [bb for bb, n in names if n == "add_stage"]
-            n_add_group = [(bb, a) for bb, n, a in order if n == "add_group"]
+            n_add_stage = [pos for pos, n, _ in order if n == "add_stage"]
+            n_add_group = [(pos, a_) for pos, n, a_ in order if n == "add_group"]
+
+            def pos_of(t):
+                for pos, x in enumerate(events):
+                    if x[0] == "call" and x[4] == t:
+                        return pos
+                return None
+
             if variant == "Group":
                 if s0 != ("field", ("variant", it_call, "Group"), "0", A.TARGET) or g0 != ("field", ("variant", it_call, "Group"), "1", A.TARGET):
                     problems.append("Group(stage, group) target: the slot written is not (target.0, target.1)")
@@ -172,40 +206,34 @@ def slot(ctx, report, rule, facts, config):
                 if s0 != ("field", ("variant", it_call, "Stage"), "0", A.TARGET):
                     problems.append("Stage(stage) target: stage index written is not target.0")
                 okg = False
-                if isinstance(g0, tuple) and g0[0] == "call" and callee_at(body, g0[1]).name == "len":
-                    f_, i_, b_ = table_access(body, g0[2][0])
-                    if crate_fields(f_) == [(A.SB, "ids")] and i_ == [s0] and n_add_group and g0[1] < n_add_group[0][0] and _before(p, g0[1], n_add_group[0][0]):
+                if Q.is_call(ev, g0, "len"):
+                    f_, i_, b_ = Q.table_access(ev, g0[2][0])
+                    if Q.crate_fields(f_) == [(A.SB, "ids")] and [Q.strip(ev, i) for i in i_] == [s0] and n_add_group and pos_of(g0) is not None and pos_of(g0) < n_add_group[0][0]:
                         okg = True
                 if not okg:
                     problems.append("Stage target: group index is not len(ids[stage]) taken before add_group")
-                if n_add_stage or len(n_add_group) != 1 or n_add_group[0][1][1:] != (s0,):
+                if n_add_stage or len(n_add_group) != 1 or tuple(Q.strip(ev, i) for i in n_add_group[0][1][1:]) != (s0,):
                     problems.append("Stage target: expected exactly one add_group(stage) and no add_stage")
             elif variant == "NewStage":
                 oks = False
-                if isinstance(s0, tuple) and s0[0] == "call" and callee_at(body, s0[1]).name == "len":
-                    f_, i_, b_ = table_access(body, s0[2][0])
-                    if crate_fields(f_) == [(A.SB, "stages")] and not i_ and n_add_stage and _before(p, s0[1], n_add_stage[0]):
+                if Q.is_call(ev, s0, "len"):
+                    f_, i_, b_ = Q.table_access(ev, s0[2][0])
+                    if Q.crate_fields(f_) == [(A.SB, "stages")] and not i_ and n_add_stage and pos_of(s0) is not None and pos_of(s0) < n_add_stage[0]:
                         oks = True
                 if not oks:
                     problems.append("NewStage: stage index is not len(stages) taken before add_stage")
                 if g0 != ("int", 0):
                     problems.append("NewStage: group index is not 0")
-                if len(n_add_stage) != 1 or len(n_add_group) != 1 or n_add_group[0][1][1:] != (s0,) or not _before(p, n_add_stage[0], n_add_group[0][0]):
+                if len(n_add_stage) != 1 or len(n_add_group) != 1 or tuple(Q.strip(ev, i) for i in n_add_group[0][1][1:]) != (s0,) or not n_add_stage[0] < n_add_group[0][0]:
                     problems.append("NewStage: expected add_stage() then add_group(stage) exactly once each")
             else:
                 problems.append("unknown insertion target variant %s" % variant)
         report.ob(rule, inst, not problems, "; ".join(problems) if problems else
                   "five tables written once each at the slot denoted by the target; box = Box::new(system), id, declared reads/writes", site=body.loc(), config=config)
+    report.floor(rule, "normal paths of insert", n_paths, 3, config=config)
     for v in ("Stage", "Group", "NewStage"):
         if v not in seen_variants:
             report.ob(rule, "insert/%s" % v, False, "no normal path of insert handles InsertionTarget::%s" % v, site=body.loc(), config=config)
-
-
-def _before(path, bb_a, bb_b):
-    try:
-        return path.blocks.index(bb_a) < path.blocks.index(bb_b)
-    except ValueError:
-        return False
 
 
 # ------------------------------------------------------------------ LOCKSTEP
